@@ -61,7 +61,7 @@ func pathOf(es []manyEntry) string {
 }
 
 func genC02(c *Ctx) {
-	nShapes := 40
+	nShapes := 52
 	maxN := 12
 	if c.thorough() {
 		nShapes, maxN = 900, 40
@@ -81,6 +81,14 @@ func genC02(c *Ctx) {
 		shape := it % 7
 		if isBig {
 			shape = 2 + it%2
+		}
+		// the first iterations walk a fixed list of small shapes (n, distinct keys, distinct messages) so that the
+		// corner shapes (one message under several keys, one key under several messages, exact ties) are there for every
+		// seed; the others are drawn
+		fixed := [][3]int{{2, 2, 1}, {3, 3, 1}, {4, 2, 1}, {2, 1, 2}, {3, 1, 3}, {4, 1, 2}, {2, 2, 2}, {4, 2, 2}, {3, 2, 1}, {3, 1, 2}, {1, 1, 1}, {5, 5, 1}}
+		if it < len(fixed) && !isBig {
+			n, nk, nm = fixed[it][0], fixed[it][1], fixed[it][2]
+			shape = -1
 		}
 		switch shape {
 		case 0:
@@ -128,10 +136,10 @@ func genC02(c *Ctx) {
 			}
 			es[i] = manyEntry{k, pk, m, hashers[c.intn(2)]}
 		}
-		if it%7 == 5 && n >= 2 { // duplicated (key, message) pair
+		if shape == 5 && n >= 2 { // duplicated (key, message) pair
 			es[n-1] = es[0]
 		}
-		if it%7 == 6 && n >= 2 { // pk and -pk on one message
+		if shape == 6 && n >= 2 { // pk and -pk on one message
 			es[1] = manyEntry{new(big.Int).Sub(blsR, es[0].k), skFromInt(new(big.Int).Sub(blsR, es[0].k)).PublicKey(), es[0].msg, es[0].h}
 		}
 		// honest aggregate
